@@ -13,6 +13,7 @@ var (
 	keywords = map[string]int{
 		"ACTION":        ACTION,
 		"AND":           AND,
+		"AS":            AS, // in no rule: `b AS (expr)` is a generated column, not a column of type AS
 		"ASC":           ASC,
 		"AUTOINCREMENT": AUTOINCREMENT,
 		"CASCADE":       CASCADE,
